@@ -36,6 +36,8 @@ CLAIMS = {
             'trusted: memchr_iter / binary_search assumed specs; handler-built Range literals and visitor span arithmetic not covered', '§5-C15'),
     'C10': ('proof', 'Sequential clauses only: the contract of analyze_file_internal gives, for both orders of {scan analyses F from disk, editor analyses F from the buffer}, the resulting entries of F; lemma restore: one further analyze_file(F, t) makes F\'s entries exactly those of t; lemma fresh-keeps-old: analyze_file_fresh on a non-empty index keeps the old entries — known finding F-10 (open then scan yields both).',
             'no thread model: interleavings are out of reach (see DESIGN §2)', '§5-C10'),
+    'C20': ('proof', 'compute_definition_usage_counts (including its resolution memo) and get_unused_fixtures are proved exactly: a key (file, name) has a count iff a definition of the name lives in the file, the count is the number of recorded usages whose resolution (the same resolve_usage as go-to-definition / find-references) lands in that file under that name, and the unused list is the sorted listing of the project, non-autouse definitions whose key has count 0; lemmas: listed iff ..., count == |references| when the file defines the name once, result is a function of the index (reproducible). Known finding F-20: same-file redefinitions share a count.',
+            'trusted: std HashMap / sort_by / Ord shims; printing and exit codes in main.rs not covered', '§5-C20'),
 }
 
 NOT_APPLICABLE = {
